@@ -84,3 +84,19 @@ def fault_scenario(rng, small=None):
     if small:
         sc['periods'] = dict(SMALL_PERIODS)
     return sc
+
+
+def loop_race_family():
+    """one instance repeats a looping block (history grows, index stays) while another leaves the loop (index grows, history
+    shorter): the two positions are ordered by (index, history size), whatever the delivery order."""
+    import itertools
+    for names in (['A', 'B'], ['A', 'B', 'C']):
+        for loops in (1, 2, 3):
+            for leave in (['in B 2'], ['in B 2', 'in B 3'], ['in B 9']):
+                base = ['in A 0', 'sync'] + ['in A 1'] * loops + leave
+                moves = ['pass A', 'pass B', 'del A B', 'del B A'] + (['del A C', 'del B C'] if 'C' in names else [])
+                for k, order in enumerate(itertools.permutations(moves)):
+                    if k % (5 if 'C' in names else 2):
+                        continue
+                    yield {'names': names, 'phens': CONFLICT, 'cache': 1000,
+                           'ops': base + list(order) + list(order) + ['heal']}
